@@ -47,6 +47,15 @@ def _conc(*a: Any) -> bool:
     return all(isinstance(x, int) and not isinstance(x, bool) for x in a)
 
 
+def _total(f: Any) -> Any:
+    """Concrete re-evaluation of a spec function outside its domain (e.g. month 13 of a 12-month year): NaN, so that
+    every comparison involving it is false instead of aborting the evaluation of the whole contract."""
+    try:
+        return f()
+    except Exception:  # noqa: BLE001
+        return float("nan")
+
+
 def real_calc(ordinal: int) -> Any:
     """The real calculator of a concrete calendar ordinal (used when a contract is re-evaluated on concrete inputs)."""
     from pyoda_time import CalendarSystem
@@ -57,31 +66,31 @@ def real_calc(ordinal: int) -> Any:
 
 def soy(c: Any, y: Any) -> Any:
     if _conc(c, y):
-        return real_calc(c)._get_start_of_year_in_days(y)
+        return _total(lambda: real_calc(c)._get_start_of_year_in_days(y))
     return sym.mk_int(SOY(_t(c), _t(y)))
 
 
 def diy(c: Any, y: Any) -> Any:
     if _conc(c, y):
-        return real_calc(c)._get_days_in_year(y)
+        return _total(lambda: real_calc(c)._get_days_in_year(y))
     return sym.mk_int(DIY(_t(c), _t(y)))
 
 
 def miy(c: Any, y: Any) -> Any:
     if _conc(c, y):
-        return real_calc(c)._get_months_in_year(y)
+        return _total(lambda: real_calc(c)._get_months_in_year(y))
     return sym.mk_int(MIY(_t(c), _t(y)))
 
 
 def dim(c: Any, y: Any, m: Any) -> Any:
     if _conc(c, y, m):
-        return real_calc(c)._get_days_in_month(y, m)
+        return _total(lambda: real_calc(c)._get_days_in_month(y, m))
     return sym.mk_int(DIM(_t(c), _t(y), _t(m)))
 
 
 def dsm(c: Any, y: Any, m: Any) -> Any:
     if _conc(c, y, m):
-        return real_calc(c)._get_days_from_start_of_year_to_start_of_month(y, m)
+        return _total(lambda: real_calc(c)._get_days_from_start_of_year_to_start_of_month(y, m))
     return sym.mk_int(DSM(_t(c), _t(y), _t(m)))
 
 
